@@ -21,9 +21,10 @@ from collections import Counter
 import numpy as np
 from scipy.optimize import nnls
 
-from .. import gen
+from .. import gen, history
 from ..engine import raise_site, violation
 from ..rng import Stream
+from . import c13_defs
 
 PROP = "C13"
 TIERS = {
@@ -203,6 +204,8 @@ def gen_spec(seed, index, tier):
     else:
         cls = rng.choice(CLASSES)
         k0 = None
+    if index >= n_strat and rng.chance(0.3):
+        return _gen_defs_spec(rng, seed, index, tier)
     base = _gen_base(rng.sub("shape"), cls)
     ops = rng.sub("ops")
     steps = []
@@ -229,7 +232,48 @@ def gen_spec(seed, index, tier):
     return {"property": PROP, "index": index, "seed": seed, "base": base, "steps": steps}
 
 
+def _gen_defs_spec(rng, seed, index, tier):
+    """A history of mutators with the definitional invariants of every ball evaluated at
+    each state (c13_defs).  All eight classes that implement balls."""
+    cls = rng.choice(list(c13_defs.DEF_CLASSES))
+    shape_rng = rng.sub("shape")
+    scale = 10 ** (shape_rng.uniform(-1, 1) if shape_rng.chance(0.8) else
+                   shape_rng.uniform(-2.5, 2.5))
+    base, obj = None, None
+    for _ in range(20):
+        if cls in gen.CURVED:
+            cand = gen.gen_base(shape_rng, cls, scale=scale)
+        else:
+            cand = gen.gen_base(shape_rng, cls, scale=max(scale, 0.5) if cls == "Polyhedron"
+                                else scale)
+        try:
+            obj = gen.build(cand)
+            base = cand
+            break
+        except Exception:  # noqa: BLE001
+            continue
+    ops = rng.sub("ops")
+    steps = [{"op": "defs"}]
+    if base is not None:
+        curved = cls in gen.CURVED
+        for m in history.gen_steps(ops, obj, ops.randint(0, 4), bad_rate=0.05,
+                                   setter_bias=3.0, factor_decades=1.0,
+                                   ext_range=((1e-6, 1e6) if curved else
+                                              (0.3 if cls == "Polyhedron" else 1e-2, 300.0)),
+                                   coord_max=1e8 if curved else 2500.0):
+            steps.append({"op": "mutate", "m": m})
+            steps.append({"op": "defs"})
+    return {"property": PROP, "index": index, "seed": seed, "base": base, "steps": steps,
+            "kind": "defs"}
+
+
 def sample(spec):
+    if spec.get("kind") == "defs":
+        b = spec.get("base") or {}
+        return {"kind": "defs", "base": {k: b.get(k) for k in ("cls", "family")},
+                "steps": [s["op"] if s["op"] != "mutate" else
+                          {k: s["m"][k] for k in ("op", "prop", "name", "arg") if k in s["m"]}
+                          for s in spec["steps"]]}
     return {"base": {k: spec["base"].get(k) for k in ("cls", "family")},
             "n_vertices": len(spec["base"]["vertices"]),
             "steps": [{k: s[k] for k in ("op", "solver_script", "factor", "bad", "scribble", "alias",
@@ -314,6 +358,9 @@ def execute(spec, world):
     C = res["counters"]
     log = world.log
     base = spec["base"]
+    if base is None:
+        C["base_unbuildable"] += 1
+        return res
     with world.step(0, 0, use_fs=False):
         try:
             shape = gen.build(base)
@@ -322,6 +369,8 @@ def execute(spec, world):
             log.add("base", "unbuildable", type(e).__name__)
             return res
     cls = type(shape).__name__
+    if spec.get("kind") == "defs":
+        return _execute_defs(spec, world, shape, res)
     ball_name, rad_name = _names(shape)
     normal = np.array(shape.normal, copy=True) if hasattr(shape, "normal") else None
 
@@ -507,10 +556,43 @@ def execute(spec, world):
     return res
 
 
+def _execute_defs(spec, world, shape, res):
+    C = res["counters"]
+    log = world.log
+    cls = type(shape).__name__
+    for si, st in enumerate(spec["steps"]):
+        C["steps"] += 1
+        if st["op"] == "mutate":
+            r = history.apply(shape, st["m"], world)
+            C["defs_mutations_" + r["outcome"]] += 1
+            log.add("mutate", si, st["m"].get("prop") or st["m"].get("name"), r["outcome"])
+            try:
+                g = history.geometry(shape)
+                usable = all(k == "faces" or np.all(np.isfinite(np.asarray(v, float)))
+                             for k, v in g.items())
+            except Exception:  # noqa: BLE001
+                usable = False
+            if not usable:
+                C["state_after_mutation_unusable"] += 1
+                break
+            continue
+        before = len(res["violations"])
+        with world.step(11, 13, use_fs=False):
+            c13_defs.check_definitions(shape, res, si)
+        res["nontrivial"] = True
+        res["sets"]["cls_x_script"].add("%s:defs" % cls)
+        log.add("defs", si, len(res["violations"]) - before)
+        if len(res["violations"]) > before:
+            break
+    return res
+
+
 # --------------------------------------------------------------------------
 # shrinking help
 # --------------------------------------------------------------------------
 def simplify(spec):
+    if spec.get("kind") == "defs":
+        return
     for i, st in enumerate(spec["steps"]):
         if st.get("factor") not in (None, 2.0):
             c = copy.deepcopy(spec)
